@@ -12,7 +12,7 @@ META = {
         technique="contract-based deductive verification: class invariant + per-method pre/postconditions on the real Element methods, VCs from the AST discharged by z3/cvc5; bounded reference-model enumeration as labelled stand-in",
         level_text="Every obligation generated from the current source of Element.{__init__, set_values, set_lower_limits, set_upper_limits, set_fixed, __copy__, reset_parameter(s), get_*} is discharged for all states, all key sets and any number of keyword pairs; histories follow by induction (invariant + deterministic postconditions). set_label and Container copies are only bounded.",
         level_note="floats as reals with +-inf constants, NaN excluded; typed arguments; set_label proved separately as a data-flow contract on a string term (character classes opaque); positional pairs proved for <=2 pairs; class defaults assumed consistent",
-        explanation="Class invariant + per-method contracts on the real Element methods (AST re-read every run), setters proved for the keyword form with any number of keys (loop invariant over a ghost done-set) and for 0..2 positional pairs; callers (__copy__, reset_parameter(s), __init__) checked against the callee contracts. Bounded layer: exhaustive short call sequences against a dict reference model. Connection/Circuit.__copy__/__deepcopy__ and Element.__deepcopy__ on recording stand-ins: new object of the same class from the children's copies in order, one memo for all, registered under id(self), returned again when asked again.",
+        explanation="Class invariant + per-method contracts on the real Element methods (AST re-read every run), setters proved for the keyword form with any number of keys (loop invariant over a ghost done-set) and for 0..2 positional pairs; callers (__copy__, reset_parameter(s), __init__) checked against the callee contracts. Bounded layer: exhaustive short call sequences against a dict reference model. Connection/Circuit.__copy__/__deepcopy__ and Element.__deepcopy__ on recording stand-ins: new object of the same class from the children's copies in order, one memo for all, registered under id(self), returned again when asked again. Connection/Circuit.__copy__/__deepcopy__ and Element.__deepcopy__ on recording stand-ins: new object of the same class from the children's copies in order, one memo for all, registered under id(self), returned again when asked again.",
         trusted_base=["str.strip / str.isascii / str.isdigit are opaque in the set_label contract (their meaning is only exercised by the bounded layer)",
                       "positional-pair form proved for <=2 pairs only (concrete unrolling of the *args loop)"],
         assumptions=COMMON_ASSUME + ["class defaults satisfy lower <= value <= upper and lower < upper (established at registration; Element.set_default_values does not re-check)",
@@ -48,7 +48,7 @@ META["C05"] = dict(
     technique="data structure against an abstract view: per-method pre/postconditions and frame conditions on the real DataSet methods, VCs from the AST (dicts as domain/value arrays, numpy arrays as index windows) discharged by z3/cvc5; operation-sequence enumeration against a list-of-triples model as labelled bounded stand-in",
     level_text="For all sizes n>=1, all masks and all inputs: DataSet.__init__ (ordering branch onward), set_mask, get_mask, get_frequencies/get_impedances(masked), low_pass, high_pass and _parse satisfy view postconditions (each point's f, Z, mask stay together; descending presentation; masked/unmasked partition) and frame conditions (caller-owned dicts not modified). Histories follow by induction over the per-method postconditions. subtract_impedances, average, to_dict/JSON and duplicate are covered by the bounded layer only.",
     level_note="numpy semantics table (flip, array, enumerate, .size, .real/.imag, zip/map/complex) trusted; validation prologue of __init__ abstracted; JSON int(str(i))==i assumed; floats as reals",
-    explanation="Obligations from DataSet.{__init__ (from the ordering branch), set_mask, get_mask, get_frequencies, get_impedances, low_pass, high_pass, _parse}: view postconditions, well-formedness (mask keys = 0..n-1), frames on the caller's mask/dict, loop invariants for the key-pruning and cutoff loops. Bounded: all operation sequences of bounded length against a reference model. DataSet.to_dict (point-by-point export, private copy of the mask, data set unchanged) and subtract_impedances (index by index) are under contract too. DataSet.from_dict, duplicate and average as data-flow contracts (import of the export without uuid; all points of every data set, grids compared with the first, mean over axis 0 in order).",
+    explanation="Obligations from DataSet.{__init__ (from the ordering branch), set_mask, get_mask, get_frequencies, get_impedances, low_pass, high_pass, _parse}: view postconditions, well-formedness (mask keys = 0..n-1), frames on the caller's mask/dict, loop invariants for the key-pruning and cutoff loops. Bounded: all operation sequences of bounded length against a reference model. DataSet.to_dict (point-by-point export, private copy of the mask, data set unchanged) and subtract_impedances (index by index) are under contract too. DataSet.from_dict, duplicate and average as data-flow contracts (import of the export without uuid; all points of every data set, grids compared with the first, mean over axis 0 in order). DataSet.from_dict, duplicate and average as data-flow contracts (import of the export without uuid; all points of every data set, grids compared with the first, mean over axis 0 in order).",
     trusted_base=["numpy semantics table of pyvc/npmodel.py"],
     assumptions=COMMON_ASSUME + ["arguments are of the documented types (the TypeError/ValueError validation prologue of DataSet.__init__ is not modelled)"],
     abstracted=["DataSet.__init__ validation prologue", "uuid4/basename/splitext are opaque"],
@@ -70,7 +70,7 @@ META["C07"] = dict(
     technique="contract-based verification of the real matrix builders and result writers: the functions of least_squares.py / matrix_inversion.py / utility.py and the real element impedances are executed by CPython on symbolic values (operator overloading, concrete control flow enumerated over all 36 variants); linearity, consistency and recovery lemmas discharged by an exact ring normaliser and z3; numeric recovery as labelled bounded stand-in",
     level_text="For each of the 36 linear variants (lstsq/inversion x complex/real/imaginary x Z/Y x optional C/L columns), for all omega>0, time constants and variables: (O1) rows of the real A-matrix times x equal the real/imaginary part of the model built by the real _generate_circuit/_update_circuit from the real element impedances; (O2) for the model's own spectrum every linear system given to lstsq/pinv/inv is solved exactly by the generating variables; (O3) with that solution returned, _test_wrapper returns the generating circuit (up to the code's own 1e-18 regularisers, made explicit). Hence residuals are identically zero provided the solver returns the (unique) exact solution - that proviso, floating point, and CNLS convergence are assumptions / bounded.",
     level_note="numpy.linalg lstsq/pinv/inv assumed to return the exact least-squares solution (full column rank); real arithmetic; series/parallel composition law imported from C01; two RC elements as representative width (columns are generated by one loop body); CNLS only bounded",
-    explanation="Obligations O1/O2/O3 per variant, pointwise in omega, as polynomial identities of complex rational functions (ring-normaliser, z3 for the rest); time-constant endpoints with log10/pow10 axioms. Bounded: generated model spectra through perform_kramers_kronig_test with frozen thresholds. The wrappers _evaluate_representations, perform_exploratory_kramers_kronig_tests and perform_kramers_kronig_test pass every option of evaluate_log_F_ext on, each under its own name (decided on the ASTs against the callee's real signature).",
+    explanation="Obligations O1/O2/O3 per variant, pointwise in omega, as polynomial identities of complex rational functions (ring-normaliser, z3 for the rest); time-constant endpoints with log10/pow10 axioms. Bounded: generated model spectra through perform_kramers_kronig_test with frozen thresholds. The wrappers _evaluate_representations, perform_exploratory_kramers_kronig_tests and perform_kramers_kronig_test pass every option of evaluate_log_F_ext on, each under its own name (decided on the ASTs against the callee's real signature). The wrappers _evaluate_representations, perform_exploratory_kramers_kronig_tests and perform_kramers_kronig_test pass every option of evaluate_log_F_ext on, each under its own name (decided on the ASTs against the callee's real signature).",
     trusted_base=["pyvc/overload.py: pointwise model of numpy slicing (row halves), zeros, array_sum (Sigma rule)", "pyvc/ring.py exact polynomial normaliser", "solver stubs return the vectors named in the lemma"],
     assumptions=COMMON_ASSUME + ["lstsq/pinv/inv return the exact solution when one exists and the design matrix has full column rank", "generic point: values compared with 0.0 in _update_circuit are non-zero unless the lemma says otherwise"],
     abstracted=["argument-type validation prologue of _test_wrapper (isinstance checks evaluated on the concrete stand-ins)"],
@@ -81,7 +81,7 @@ META["C08"] = dict(
     technique="contracts on the real residual/chi-square functions (pointwise algebra, executed on symbolic values) and data-flow (EUF) contracts on result-assembly sites: the real entry point is run by CPython on uninterpreted terms with contract stubs for its numerical callees, all oracle-decided branches enumerated; z3 decides the term equalities; entry-point sweep as labelled bounded stand-in",
     level_text="Proved for all inputs: residual = (Z_exp-Z_fit)/|Z_exp| and the chi-square summand = |residual|^2 for the real utility functions; for perform_zhit on every path, the result's frequencies are data.get_frequencies(), residuals are computed from data.get_impedances() and the reported impedances, and pseudo_chisqr is the chi-square of those same arrays (given the proved contract of _adjust_offset). The other entry points (KK, DRT, fit) and masked-point independence are bounded only.",
     level_note="opaque numerical callees assumed pure/deterministic; Sigma rule for numpy.sum; floats as reals; only perform_zhit's assembly is under a data-flow contract so far",
-    explanation="Obligations: algebra lemmas on analysis/utility.py and kramers_kronig/utility.py; EUF obligations at the ZHITResult constructor call for both representations and both signs of min Re(Y); contract of zhit/offset.py:_adjust_offset. Bounded: all entry points x options x masked/planted data. Result assembly of all five DRT entry points: frequencies = data.get_frequencies(), residuals and pseudo chi-squared computed from data.get_impedances() and the very model impedance that is returned, and never stale on any path (flag-aware may-analysis of the real AST; BHT's chi-squared and m(RQ)fit's residuals come from elsewhere and have no obligation). Work-item tuples built for the multi-process workers have the fields the workers unpack, same-named variables at the same positions.",
+    explanation="Obligations: algebra lemmas on analysis/utility.py and kramers_kronig/utility.py; EUF obligations at the ZHITResult constructor call for both representations and both signs of min Re(Y); contract of zhit/offset.py:_adjust_offset. Bounded: all entry points x options x masked/planted data. Result assembly of all five DRT entry points: frequencies = data.get_frequencies(), residuals and pseudo chi-squared computed from data.get_impedances() and the very model impedance that is returned, and never stale on any path (flag-aware may-analysis of the real AST; BHT's chi-squared and m(RQ)fit's residuals come from elsewhere and have no obligation). Work-item tuples built for the multi-process workers have the fields the workers unpack, same-named variables at the same positions. Result assembly of all five DRT entry points: frequencies = data.get_frequencies(), residuals and pseudo chi-squared computed from data.get_impedances() and the very model impedance that is returned, and never stale on any path (flag-aware may-analysis of the real AST; BHT's chi-squared and m(RQ)fit's residuals come from elsewhere and have no obligation). Work-item tuples built for the multi-process workers have the fields the workers unpack, same-named variables at the same positions.",
     trusted_base=["contracts/dataflow.py term model of Python operators (three algebraic axioms: x**1=x, (x**-1)**-1=x, x-0.0=x)"],
     assumptions=COMMON_ASSUME + ["opaque callees are pure and deterministic"],
     abstracted=["argument validation prologue of perform_zhit (type predicates evaluate to True on terms)"],
@@ -109,7 +109,7 @@ META["C13"] = dict(
     technique="kernel identities as postconditions on the real DRT functions (TR-NNLS matrix/model/normalisation, Loewner peak extraction, m(RQ)fit closed forms) executed on symbolic values and discharged by the ring normaliser / z3; areas, peak positions and solver behaviour are labelled bounded stand-ins",
     level_text="Proved for all omega, tau: the TR-NNLS matrix entry is dlntau*Re (resp. -Im) of the Debye kernel and is invariant under (c w, tau/c); the model impedance uses the same kernel times R_pol (+R_inf); normalisation gives R_pol(cZ)=c R_pol(Z) with Z_norm unchanged, so gamma=g*R_pol scales with c and is >=0 when nnls>=0; a Loewner pole -1/tau_k with residue R_k/tau_k is reported as (tau_k, R_k); the m(RQ)fit distribution is the documented closed form. Integrals over ln tau and peak positions are numerical and bounded.",
     level_note="nnls >= 0, eig/solve assumed; Sigma rule; calculus facts (areas) only bounded",
-    explanation="Lemma obligations on analysis/drt/{tr_nnls,lm,mrq_fit}.py; bounded: RC/RQ ladders through calculate_drt with frozen thresholds. DRTResult._get_peak_indices as a data-flow contract: candidates from find_peaks without any absolute criterion, kept iff gamma_i / max(gamma) > threshold and gamma_i > 0.",
+    explanation="Lemma obligations on analysis/drt/{tr_nnls,lm,mrq_fit}.py; bounded: RC/RQ ladders through calculate_drt with frozen thresholds. DRTResult._get_peak_indices as a data-flow contract: candidates from find_peaks without any absolute criterion, kept iff gamma_i / max(gamma) > threshold and gamma_i > 0. DRTResult._get_peak_indices as a data-flow contract: candidates from find_peaks without any absolute criterion, kept iff gamma_i / max(gamma) > threshold and gamma_i > 0.",
     trusted_base=["pyvc/overload.py", "pyvc/ring.py"],
     assumptions=COMMON_ASSUME + ["scipy.optimize.nnls returns a non-negative solution", "scipy.linalg.eig / solve return the eigen-decomposition"],
 )
@@ -149,7 +149,7 @@ META["C03"] = dict(
     technique="stack-frame and node-per-call contracts on the real recursive-descent parser (main_loop, connection, subcircuit) and limit-ordering call preconditions of Parser.element against the Element setter contracts, VCs from the AST discharged by z3; the emitter/parser round trip over a grammar-directed printer is a labelled bounded stand-in",
     level_text="Proved for all token sequences and stacks: a sub-circuit leaves the parser stack exactly as it found it (it never moves elements into or out of a container), every main_loop/connection call consumes tokens and pushes exactly one node without touching anything below; Parser.element applies value/limits/fixed flags such that an element emitted by serialize() with lower < upper and lower <= value <= upper is accepted and ends in that state. Element order inside connections, text-level spellings (white space, fixed marker, percentages, labels, decimals) and re-serialisation identity are covered by the bounded printer/parser round trip.",
     level_note="tokens as kind codes, nodes as opaque ids (order of children not tracked); Parser.parameters/param/param_limit assumed by contract; float formatting assumed; labels bounded",
-    explanation="Obligations: parser.py main_loop, connection (Series/Parallel), subcircuit (frame), element (call-pre of set_lower/upper_limits, set_fixed; final state). Bounded: all trees up to a bound x all spellings x labels x decimals. The emitters are under contract too: Series/Parallel/Circuit.to_string and Circuit.serialize (brackets, children in order with the same decimals, version header), Element.to_string (key=value[F]/lower/upper per parameter with its own numbers, F and inf exactly where due, label after a colon; decided independently of the number format), Container.to_string (sub-circuits in sorted order as open/short/text).",
+    explanation="Obligations: parser.py main_loop, connection (Series/Parallel), subcircuit (frame), element (call-pre of set_lower/upper_limits, set_fixed; final state). Bounded: all trees up to a bound x all spellings x labels x decimals. The emitters are under contract too: Series/Parallel/Circuit.to_string and Circuit.serialize (brackets, children in order with the same decimals, version header), Element.to_string (key=value[F]/lower/upper per parameter with its own numbers, F and inf exactly where due, label after a colon; decided independently of the number format), Container.to_string (sub-circuits in sorted order as open/short/text). The emitters are under contract too: Series/Parallel/Circuit.to_string and Circuit.serialize (brackets, children in order with the same decimals, version header), Element.to_string (key=value[F]/lower/upper per parameter with its own numbers, F and inf exactly where due, label after a colon; decided independently of the number format), Container.to_string (sub-circuits in sorted order as open/short/text).",
     trusted_base=["contracts/parser.py token/stack model", "contracts/element.py setter contracts (proved in C14)"],
     assumptions=COMMON_ASSUME + ["'%.{d}E' % x and float(str) round-trip to the printed precision"],
 )
@@ -179,7 +179,7 @@ META["C19"] = dict(
     technique="data-flow (EUF) contracts on the real CLI command functions: run by CPython on uninterpreted option terms with recording stand-ins for the API and marker strings for tables, so that forwarding is checked argument for argument; in-process CLI runs against the API as labelled bounded stand-in",
     level_text="Proved for all option values: apply_filters calls low_pass/high_pass/set_mask with exactly the given cut-offs/indices, in order and only when requested; `parse` prints format_text(data.to_dataframe(), args) for each data set after filtering; `fit` calls fit_circuit(parse_cdc(args.circuit), data=..., method/weight/max_nfev/num_procs/timeout = the same-named options) 1+num_refinements times and prints the parameter and statistics tables of the last fit; `circuit --simulate` simulates each parsed circuit on _interpolate([max, min], num_per_decade); get_mock_data(s) is generate_mock_data(*_parse_identity(s)). _parse_identity's string handling, argparse wiring, output files and the drt command are bounded.",
     level_note="plotting and file output stand-ins; argparse itself and string parsing of mock specifiers only bounded",
-    explanation="Obligations at every recorded API call / printed string of cli/utility.py:apply_filters,get_mock_data; cli/parse.py:command; cli/fit.py:command; cli/circuit.py:simulate_spectra. Bounded: in-process pyimpspec.cli.main runs compared cell by cell with the API. cli/drt.py individual_plots and overlay_plot: one calculate_drt call per data set with every option forwarded argument for argument, report tables of exactly that result; cli/utility helpers write no module-level state; apply_filters specified over the three conditions themselves. cli/test.py and cli/zhit.py pass every option to evaluate_log_F_ext / perform_zhit from its own args attribute (decided on the ASTs against the callee's real signature).",
+    explanation="Obligations at every recorded API call / printed string of cli/utility.py:apply_filters,get_mock_data; cli/parse.py:command; cli/fit.py:command; cli/circuit.py:simulate_spectra. Bounded: in-process pyimpspec.cli.main runs compared cell by cell with the API. cli/drt.py individual_plots and overlay_plot: one calculate_drt call per data set with every option forwarded argument for argument, report tables of exactly that result; cli/utility helpers write no module-level state; apply_filters specified over the three conditions themselves. cli/test.py and cli/zhit.py pass every option to evaluate_log_F_ext / perform_zhit from its own args attribute (decided on the ASTs against the callee's real signature). cli/test.py and cli/zhit.py pass every option to evaluate_log_F_ext / perform_zhit from its own args attribute (decided on the ASTs against the callee's real signature).",
     trusted_base=["contracts/dataflow.py", "recording stand-ins"],
     assumptions=COMMON_ASSUME + ["plot functions do not mutate results"],
 )
